@@ -23,6 +23,7 @@ PROP_FILE = "Props/Properties_C02.v"
 EXTRACT = "Extract/Extract_C02.vo"
 DRIVER = "driver_C02.ml"
 OCAML_ID = "C02"
+HARNESS_WRAPS = ("gettimeofday",)      # virtual clock for the update deferral timer
 
 
 # ---------------------------------------------------------------- generators
@@ -184,9 +185,27 @@ def gen_case(rng, k, quick, kind=None, nops=None):
             L.append("req %d 0 0 0 %d %d" % (c, W, H))
             L.append("tick %d" % c)
     n = nops if nops is not None else rng.choice([6, 12, 20, 30, 40])
+    # a third of the cases play with the deferral timer (virtual clock) and SetPixelFormat
+    timed = kind in ("shape", "nullcur") and rng.random() < 0.35
+    now = [1000, 0]
+    if timed:
+        L.append("defer %d" % rng.choice([1, 5, 40, 40, 1000]))
     for _ in range(n):
         r = rng.random()
         c = rng.randrange(ncl)
+        if timed and rng.random() < 0.25:
+            q = rng.random()
+            if q < 0.75:        # time passes: boundary values around deferUpdateTime
+                ms = rng.choice([0, 1, 4, 5, 6, 39, 40, 41, 999, 1000, 1001, 2500])
+                us = now[0] * 1000000 + now[1] + ms * 1000 + rng.choice([0, 0, 1, 999])
+                now = [us // 1000000, us % 1000000]
+            elif q < 0.85:      # the clock jumps back ("at midnight")
+                now = [max(0, now[0] - rng.choice([1, 2, 500])), rng.choice([0, 1, 500000])]
+            elif q < 0.93:
+                now = [now[0] + 1, 0]
+            else:
+                L.append("defer %d" % rng.choice([0, 0, 5, 40]))
+            L.append("time %d %d" % tuple(now))
         if r < 0.24:
             L.append("draw %d %d %d %d %d" % (rnd_mark_args(rng, W, H) + (rng.randint(0, 999),)))
         elif r < 0.28:
@@ -217,8 +236,10 @@ def gen_case(rng, k, quick, kind=None, nops=None):
             L.append("send %d" % c)
         elif r < 0.93:
             L.append(setenc(c))
-        elif r < 0.96:
+        elif r < 0.95:
             L.append("knobs %d %d" % (rng.choice([0, 1, 2, 3, 50]), rng.choice([0, 0, 1, 2, 3, 8])))
+        elif r < 0.96 and timed:
+            L.append("setpf %d %d" % (c, rng.choice([1, 2, 4])))
         elif r < 0.98 and kind in ("softcur", "nullcur"):
             if kind == "softcur":
                 L.append("setcursor 1 %d %d %d %d" % (rng.randint(0, 3), rng.randint(0, 3), rng.randint(1, 9), rng.randint(1, 9)))
@@ -231,6 +252,8 @@ def gen_case(rng, k, quick, kind=None, nops=None):
         else:
             L.append("tick %d" % c)
     # let every client catch up, so that the idle comparison is reached
+    if timed:
+        L.append("defer 0")
     for c in range(ncl):
         L.append("req %d 1 0 0 %d %d" % (c, W, H))
         L.append("tick %d" % c)
@@ -274,6 +297,17 @@ def boundary_cases(k0):
         "req 0 1 0 0 12 8", "req 1 1 0 0 12 8", "tick 1", "tick 0"])
     # idle incremental request
     add("shape", 12, 8, 4, pre + ["req 0 1 0 0 12 8", "tick 0", "send 0", "tick 0"])
+    # deferral timer: first tick starts it, not yet / just / well expired, clock running backwards
+    add("shape", 12, 8, 4, pre + ["defer 40", "draw 1 1 5 5 3", "req 0 1 0 0 12 8", "tick 0", "time 1000 30000", "tick 0",
+        "time 1000 40001", "tick 0", "time 1000 41001", "tick 0", "draw 1 1 5 5 4", "req 0 1 0 0 12 8", "tick 0",
+        "time 999 0", "tick 0", "draw 2 2 3 3 5", "req 0 1 0 0 12 8", "tick 0", "time 1005 0", "send 0",
+        "draw 2 2 3 3 6", "req 0 1 0 0 12 8", "tick 0", "tick 0", "defer 0", "tick 0"])
+    add("shape", 12, 8, 4, pre + ["defer 5", "time 2000 0", "draw 1 1 5 5 3", "req 0 1 0 0 12 8", "tick 0",
+        "time 2000 5999", "tick 0", "time 2000 6000", "tick 0", "time 2000 6001", "tick 0", "time 2000 7000", "tick 0"])
+    # SetPixelFormat mid-session, all depth pairs
+    for (sb, cb) in [(4, 2), (4, 1), (2, 4), (2, 1), (1, 4), (1, 2), (4, 4)]:
+        add("shape", 12, 8, sb, pre + ["draw 0 0 12 8 3", "req 0 1 0 0 12 8", "tick 0", "setpf 0 %d" % cb, "tick 0",
+            "draw 2 2 9 7 4", "docopyrect 4 2 8 5 2 1", "req 0 1 0 0 12 8", "tick 0", "setpf 0 %d" % sb, "tick 0", "tick 0"])
     # F9 (fixed 737e111): two-band region moved down
     add("f9", 12, 12, 4, ["addclient", "setenc 0 1 1 0 0", "req 0 0 0 0 12 12", "tick 0", "draw 0 0 12 12 1",
         "req 0 1 0 0 12 12", "tick 0", "docopyrgn 0 5 2 0 5 6 8 2 8 10 12", "req 0 1 0 0 12 12", "tick 0"])
@@ -429,6 +463,9 @@ def parse_obs(line):
                     continue
                 rects.append((f[ki][0], [int(x) for x in f[:ki]] + [int(x) for x in f[ki + 1:] if x], bad))
             d["wire"].setdefault(int(m.group(1)), []).append((int(m.group(2)), rects))
+        elif re.match(r"w(\d+):resize=(\d+)x(\d+)$", w):
+            m = re.match(r"w(\d+):resize=(\d+)x(\d+)$", w)
+            d.setdefault("resize", {})[int(m.group(1))] = (int(m.group(2)), int(m.group(3)))
         else:
             d["bogus_wire"] = w
     for p in cls:
@@ -443,10 +480,16 @@ def parse_obs(line):
         m = re.search(r" P=(\d+)", p); c["P"] = int(m.group(1)) if m else 0
         m = re.search(r" sz=(\d+)x(\d+)", p); c["sz"] = (int(m.group(1)), int(m.group(2))) if m else (0, 0)
         m = re.search(r" q=(-?\d+),(-?\d+)", p); c["q"] = (int(m.group(1)), int(m.group(2))) if m else (0, 0)
+        m = re.search(r" sc=(\S+)", p); c["sc"] = None if (not m or m.group(1) == "-") else tuple(int(t) for t in m.group(1).split("x"))
+        m = re.search(r" df=(-?\d+),(-?\d+)", p); c["df"] = (int(m.group(1)), int(m.group(2))) if m else (0, 0)
         d["clients"].append(c)
     m = re.search(r"F=(\d+) S=(\d+)x(\d+)x(\d+)", tail)
     if m:
         d["F"] = int(m.group(1)); d["S"] = (int(m.group(2)), int(m.group(3)), int(m.group(4)))
+    m = re.search(r" T=(-?\d+) X=\[([^\]]*)\]", tail)
+    if m:
+        d["T"] = int(m.group(1))
+        d["X"] = [tuple(int(t) for t in q.split("x")) for q in m.group(2).split(";")] if m.group(2) else []
     return d
 
 
@@ -482,14 +525,21 @@ def taint_timeline(case, impl_lines):
                     tainted.add(ci)
             for m in re.finditer(r"\| c(\d+) [^|]* f=(\d)(\d)", l):
                 shape[int(m.group(1))] = m.group(3)
+            # scaled clients: only the size bookkeeping is modelled, their pictures are not
+            for m in re.finditer(r"\| c(\d+) [^|]* sc=(\d+x\d+)", l):
+                tainted.add(int(m.group(1)))
         out.append(set(tainted))
     return out
 
 
+SCALED_EXTRA = re.compile(r" scaled=\S+ uniform=\d value=\d+")
+
+
 def canon(line, tainted):
-    """picture fields of tainted clients are masked"""
+    """picture fields of tainted clients are masked; the harness-only fields of scaled clients dropped"""
+    line = SCALED_EXTRA.sub("", line)
     for ci in tainted:
-        line = re.sub(r"(\| c%d [^|]*?) P=\d+ I=\d" % ci, r"\1 P=- I=-", line)
+        line = re.sub(r"(\| c%d [^|]*?) sz=\S+ P=\S+ I=\S+" % ci, r"\1 sz=- P=- I=-", line)
     return line
 
 
@@ -528,6 +578,14 @@ def oracle_case(case, impl_lines, crash):
             feats["cursor_path"] = any(f in ("rfbShowCursor", "rfbSendCursorShape", "rfbHideCursor") for f in frames)
             bpps = [case[0].split()[4]] + [q.split()[3] for q in ops[:i] if q.startswith("newfb ")]
             feats["depth_changed"] = len(set(bpps)) > 1
+            # a scaled screen created before the last rfbNewFramebuffer is still around
+            seen_scale = False; stale = False
+            for q in ops[:i]:
+                if q.startswith("setscale "):
+                    seen_scale = True
+                elif q.startswith("newfb") and seen_scale:
+                    stale = True
+            feats["stale_scaled"] = stale
             return ("implementation crashed / stopped at '%s': %s" % (opline, txt.split("\n")[0][:200]), feats)
         o = parse_obs(impl_lines[i])
         if p[0] == "setcursor":
@@ -629,7 +687,7 @@ def oracle_case(case, impl_lines, crash):
 
 # ---------------------------------------------------------------- the check
 def build(ctx):
-    cexe = vlib.build_harness("vdrv_update", ["vdrv_update.c"])
+    cexe = vlib.build_harness("vdrv_update", ["vdrv_update.c"], wraps=HARNESS_WRAPS)
     proof_ok = vlib.prove(ctx, PROP_FILE, [EXTRACT])
     mexe = vlib.build_ocaml(OCAML_ID, DRIVER, EXTRACT)
     return cexe, mexe, proof_ok
